@@ -26,3 +26,7 @@ TEXT = {'technique': 'model-based stateful property testing (rapid) of cache his
  'level_note': 'Trusts the merged-tree model (fsmodel) and the fault wrapper; only ops valid on the merged view are generated; single faults; memfs '
                'remote.',
  'design_ref': 'DESIGN.md 4/C06'}
+
+# native coverage-guided campaign over the rapid generator (hx.FuzzRapid), thorough tier only
+CHECK['tiers']['thorough'].append({'test': '^$', 'fuzz': '^FuzzCommit$', 'fuzztime': '90s', 'gomaxprocs': 4, 'timeout': 400})
+TEXT['technique'] += '; thorough adds a native coverage-guided go fuzzing campaign over the same generator (rapid.MakeFuzz)'
